@@ -39,6 +39,8 @@ def cell_eq(a, b, *, bool_as_int=True) -> bool:
             return isinstance(b, float) and math.isnan(b)
         if a == b:
             return True
+        if isinstance(a, int) and isinstance(b, int):
+            return False  # integers are compared exactly (the tolerance is for floats)
         return abs(a - b) <= REL_TOL * max(1.0, abs(a), abs(b))
     if type(a) is not type(b):
         # date vs datetime never equal; str vs anything never equal
